@@ -205,3 +205,40 @@ def eigen_complex(h):
     h.proj_eq("eigenvector(a) is the eigenvector of the real eigenvalue a", np.real(vd) if not h.is_sym() else npmodels.model_real(vd), C[:, 2], nonzero=False)
     img = (T @ v).proj_data
     h.eq("T @ v = a v", img, a * vd, validate=False)
+
+
+def eigen_composite(h, d=2, request='none'):
+    """eigenvector() of a composite transformation (two independent units): each returned point is an eigenvector of ITS unit"""
+    from .c15 import _EigStubBatch, _with_eig
+    units, mats, Cs, lams = [], [], [], []
+    mu = h.var('mu')
+    for e in range(2):
+        C = h.arr(f"C{e}", (d, d))
+        h.assume(_det(C) != 0, 'independent eigenvectors')
+        lam = [mu if (k == 0 and request == 'shared') else h.var(f"l{e}{k}") for k in range(d)]
+        for i in range(d):
+            h.assume(lam[i] != 0, 'invertible')
+            h.assume(lam[i] * lam[i] < 10000, 'bounded')
+            for j in range(i + 1, d):
+                df = lam[i] - lam[j]
+                h.assume(df * df > 0.01, 'eigenvalues separated')
+        D = np.zeros((d, d), dtype=object if h.is_sym() else float)
+        for i in range(d):
+            D[i, i] = lam[i]
+        mats.append(C @ D @ np.linalg.inv(C))
+        units.append((lam, [C[:, k] for k in range(d)]))
+        Cs.append(C)
+        lams.append(lam)
+    T = projective.Transformation(np.array(mats, dtype=object if h.is_sym() else float), column_vectors=True)
+    with _with_eig(h, _EigStubBatch(h, units)):
+        v = T.eigenvector(eigenvalue=(mu if request == 'shared' else None))
+    V = v.proj_data
+    h.eq("shape", np.array(V.shape), np.array([2, d]))
+    for e in range(2):
+        Te = projective.Transformation(np.array(mats[e], dtype=object if h.is_sym() else float), column_vectors=True)
+        img = (Te @ projective.Point(V[e])).proj_data
+        cr = [img[i] * V[e][j] - img[j] * V[e][i] for i in range(d) for j in range(i + 1, d)]
+        h.eq(f"unit {e}: T_e v_e is a multiple of v_e", np.array(cr, dtype=object if h.is_sym() else float), 0, validate=False)
+        h.holds(f"unit {e}: non-zero", _any([x != 0 for x in V[e]]) if h.is_sym() else bool(np.abs(V[e]).max() > 1e-9))
+        if request == 'shared':
+            h.eq(f"unit {e}: eigenvalue is the requested one", img, mu * V[e], validate=False)
